@@ -104,6 +104,20 @@ class C10(Check):
                     cases.append(("stream_vs_seek %s %s" % (hexs(wd), hexs(p_)), dict(k="vs", expect="ok", n=len(zipfile_names(wd)), pat=p_.hex(), impl_only=True)))
                 cases.append(("stream_vs_seek %s xff %s" % (hexs(wd), hexs((bytes([7]) * (len(wd) + 64))[:65535])), dict(k="vs", expect="ok", n=len(zipfile_names(wd)), pat="ff", impl_only=True, chunked=True)))
                 cases.append(("visit " + hexs(wd), dict(k="visit", expect="ok", n=len(zipfile_names(wd)), impl_only=True)))
+        # archives extended by append rounds (the old directory is overwritten by the new entries: nothing may be left
+        # between old and new entries that stops the stream)
+        bases = [wprog.final_bytes(o)[1] for o in outs_w[:6]]
+        aprogs = [dict(ops=[("file", b"appended-1", Opts(method=8)), ("write", b"appended content " * 5), ("file", b"appended-2", Opts()), ("write", b"x"), ("finish",)], base=b_)
+                  for b_ in bases if b_]
+        aprogs += [dict(ops=[("finish",)], base=b_) for b_ in bases[:2] if b_]
+        _, outs_a = wprog.with_tables(self.exes["debug"], aprogs)
+        for o in outs_a:
+            _, wd = wprog.final_bytes(o)
+            if wd:
+                n_ = len(zipfile_names(wd))
+                for p_ in (b"", b"\x00", b"\x03\xff"):
+                    cases.append(("stream_vs_seek %s %s" % (hexs(wd), hexs(p_)), dict(k="vs", expect="ok", n=n_, pat=p_.hex(), impl_only=True)))
+                cases.append(("visit " + hexs(wd), dict(k="visit", expect="ok", n=n_, impl_only=True)))
         # must be refused, not mis-read
         for ents in ([Entry(b"p", b"plain"), Entry(b"e", b"secret", password=b"pw")], [Entry(b"p", b"plain"), Entry(b"dd", b"data", method=8, dd="sig32")],
                      [Entry(b"a", b"aes", password=b"pw", aes=(2, 1, bytes(8)))]):
